@@ -20,6 +20,7 @@ func init() {
 			"C06.3 in Refresh, DeleteAllocation(request tuple) runs exactly on the lifetime==0 edge and a.Refresh(lifetime) exactly on the other; " +
 			"C06.4 the expiry closure of the allocation timer calls m.DeleteAllocation(alloc.fiveTuple) for the allocation that owns the timer; " +
 			"C06.5 DeleteAllocation deletes the map entry and, on the found path, calls Close, whose release coverage is C15.2; " +
+			"C06.5r (=C15.2) Close releases every timer, socket and collection element of the allocation; C06.7 (=C15.7) a failed create leaves no armed timer behind (the expiry deletes by 5-tuple and would hit a later allocation), and the allocation is published before its created-callback runs; " +
 			"C06.6 the only sources of the duration arming an allocation timer are ServerConfig.AllocationLifetime, the 10-minute default that replaces a zero value, and the decoded request LIFETIME.",
 		NotCovered: "wall-clock exactness ('exactly', 'no longer'), behaviour of time.Timer, races between expiry and refresh.",
 		Run:        runC06,
@@ -303,6 +304,8 @@ func runC06(c *Ctx) {
 
 	// ---- C06.5
 	ruleDeleteAllocation(c, "C06.5")
+	ruleReleaseCoverage(c, "C06.5r")
+	ruleArmThenPublish(c, "C06.7")
 
 	// ---- C06.6
 	c.Rule("C06.6", "role flow: every duration that arms or resets Allocation.lifetimeTimer originates only from ServerConfig.AllocationLifetime, a constant equal to 10 minutes (the replacement of a zero configuration), or the LIFETIME decoded from the request; API entry parameters of the manager are tolerated as test/embedding entry points", 2)
